@@ -1,19 +1,385 @@
-//! C04 (stub, to be filled in)
+//! C04 - lexing is faithful: element boundaries and types follow IEEE 488.2 section 7.
+//! The fault-shaped half of the property: (1) end-to-end element integrity - what the controller
+//! put on the wire is what recording handlers receive; (2) a catalogue of 488.2 syntax faults
+//! injected at every element position must be rejected with a command error.
+
+use crate::exec::{SendObs, World};
+use crate::gen::*;
+use crate::model::*;
+use crate::msg::*;
+use crate::props::structural::*;
 use crate::props::*;
+use crate::rng::{mix, Rng};
 use crate::runner::{Finding, Prop, Tier};
 use crate::stats::Stats;
+use crate::tree::gen_tree;
 use crate::types::*;
 
 pub struct C04;
 
-impl Prop for C04 {
-    fn id(&self) -> &'static str { "C04" }
-    fn level(&self) -> &'static str { "exploration" }
-    fn rule(&self) -> &'static str { "" }
-    fn assumptions(&self) -> Vec<String> { vec![] }
-    fn runs(&self, _tier: Tier) -> u64 { 0 }
-    fn gen(&self, seed: u64, run: u64, _tier: Tier) -> Trace {
-        base_trace("C04", seed, run, "", Config { queue: QueueCfg::Vec, controllers: 1, tree: TreeDesc::default() })
+fn elem_kind(e: &Elem) -> u8 {
+    match e {
+        Elem::Chr(_) => 1,
+        Elem::Dec(_) => 2,
+        Elem::DecSuf { .. } => 3,
+        Elem::NonDec { .. } => 4,
+        Elem::Str { .. } => 5,
+        Elem::Blk { .. } => 6,
+        Elem::BlkIndef { .. } => 7,
+        Elem::Expr(_) => 8,
+        Elem::Raw(_) => 9,
     }
-    fn check(&self, _trace: &Trace, _stats: &mut Stats) -> Vec<Finding> { vec![] }
+}
+
+/// boundary-directed elements (12-character limits, block length header boundaries, doubled
+/// quote at the end of a string, 64-bit non-decimal literals)
+fn boundary_elem(rng: &mut Rng, uniq: &mut u32) -> Elem {
+    *uniq += 1;
+    match rng.below(9) {
+        0 => Elem::Chr(format!("A{:011}", *uniq % 100_000)), // exactly 12 characters
+        1 => Elem::DecSuf {
+            num: format!("{}", uniq),
+            ws: B::from(*rng.pick(&["", " "])),
+            suf: "ABCDEFGHIJKL".into(), // 12-character suffix
+        },
+        2 => {
+            let q = *rng.pick(&['"', '\'']);
+            let mut inner = format!("q{}", uniq).into_bytes();
+            inner.push(q as u8);
+            inner.push(q as u8); // doubled quote right before the closing quote
+            Elem::Str { q, inner: B(inner) }
+        }
+        3 => {
+            let q = *rng.pick(&['"', '\'']);
+            Elem::Str {
+                q,
+                inner: B(vec![q as u8, q as u8]),
+            }
+        }
+        4 => {
+            let len = *rng.pick(&[0usize, 9, 10, 99, 100, 101]);
+            let mut p = format!("B{}", uniq).into_bytes();
+            p.resize(len, b';');
+            p.truncate(len);
+            Elem::Blk { payload: B(p), pad: 0 }
+        }
+        5 => Elem::NonDec {
+            radix: 'H',
+            digits: "FFFFFFFFFFFFFFFF".into(),
+        },
+        6 => Elem::NonDec {
+            radix: 'B',
+            digits: "1".repeat(64),
+        },
+        7 => Elem::Str {
+            q: '"',
+            inner: B::new(),
+        },
+        _ => Elem::Expr(B::new()),
+    }
+}
+
+impl Prop for C04 {
+    fn id(&self) -> &'static str {
+        "C04"
+    }
+    fn level(&self) -> &'static str {
+        "exploration"
+    }
+    fn rule(&self) -> &'static str {
+        "one run = one random tree and 1-4 messages of 1-5 units whose parameters are drawn from all seven 488.2 data types (strings with ; , : quotes doubled NL; definite blocks with arbitrary bytes and length headers across 9/10/99/100; #0 blocks at end of message; expressions containing , :; NR1/NR2/NR3 spellings; suffixes with/without white space; #H/#Q/#B up to 64 bits; 12-character boundary cases) with seeded white-space placement, executed fault-free (recording handlers must receive exactly the generated elements) and then with ONE catalogued syntax fault (12 header faults, 25 parameter faults) at EVERY unit position, which must yield a command error with no later handler running. distinct_nontrivial = distinct (element type, position class, white-space class) and (fault kind, unit position class, pulls-before-fault) tuples"
+    }
+    fn assumptions(&self) -> Vec<String> {
+        vec![
+            "white-space placements generated: after the header, around ',', before/after ';', before the terminator, between number and suffix; NOT generated (488.2 status not settled offline): white space before the first header, inside mantissa/exponent".into(),
+            "the fault catalogue entries are IEEE 488.2 section 7 violations by the author's reading of the standard".into(),
+            "the exhaustive-bounded-strings part of the quantifier is not addressed by this technique".into(),
+        ]
+    }
+    fn runs(&self, tier: Tier) -> u64 {
+        match tier {
+            Tier::Quick => 12_000,
+            Tier::Thorough => 400_000,
+            Tier::Tiny => 20,
+        }
+    }
+    fn required_probes(&self) -> Vec<String> {
+        let v: Vec<&str> = vec![
+            "chardata_12_chars",
+            "suffix_12_chars",
+            "doubled_quote_at_end_of_string",
+            "block_len_0",
+            "block_len_9",
+            "block_len_10",
+            "block_len_99",
+            "block_len_100",
+            "indefinite_block",
+            "nondecimal_64_bits",
+            "separator_inside_string",
+            "separator_inside_block",
+            "separator_inside_expression",
+        ];
+        let mut v: Vec<String> = v.into_iter().map(String::from).collect();
+        for k in HEADER_FAULTS {
+            v.push(format!("header_fault_{}", k));
+        }
+        for k in PARAM_FAULTS {
+            v.push(format!("param_fault_{}", k));
+        }
+        v
+    }
+
+    fn gen(&self, seed: u64, run: u64, _tier: Tier) -> Trace {
+        let mut rng = Rng::new(mix(seed, "C04", run));
+        let mut trng = Rng::new(mix(seed, "C04-tree", run / 64));
+        let tree = gen_tree(&mut trng, false, 3, 3, 1);
+        let cfg = Config {
+            queue: QueueCfg::Vec,
+            controllers: 1,
+            tree,
+        };
+        let mut t = base_trace("C04", seed, run, "lexing", cfg.clone());
+        let tc = TreeCtx::new(&cfg.tree);
+        if tc.sim_leaves.is_empty() {
+            return t;
+        }
+        let nmsg = rng.urange(1, 4);
+        let mut uniq = 0u32;
+        for _ in 0..nmsg {
+            let k = rng.urange(1, 5);
+            let end = *rng.pick(&["", "", "\n", " \n", "\r\n", " ", ";"]);
+            let mut units = Vec::new();
+            let mut level: Vec<usize> = Vec::new();
+            for i in 0..k {
+                let leaf = pick_sim_leaf(&mut rng, &tc).unwrap().clone();
+                let last = i + 1 == k;
+                let o = UnitOpts {
+                    max_params: 6,
+                    allow_indef_last: last && end.is_empty(),
+                    query_pct: 30,
+                    max_data: 1,
+                    fancy_ws: true,
+                };
+                let mut u = gen_app_unit(&mut rng, &tc, &leaf, &level, i == 0, &mut uniq, &o);
+                // sprinkle boundary cases
+                for j in 0..u.params.len() {
+                    if rng.chance(1, 4) && !matches!(u.params[j], Elem::BlkIndef { .. }) {
+                        u.params[j] = boundary_elem(&mut rng, &mut uniq);
+                    }
+                }
+                // recording handler: pulls everything, required
+                u.plan.pulls = (0..u.params.len())
+                    .map(|_| Pull {
+                        req: true,
+                        ty: PullTy::Tok,
+                    })
+                    .collect();
+                if i > 0 && rng.chance(1, 3) {
+                    u.lead = gen_ws(&mut rng, false);
+                }
+                if let Some(l) = level_after(&tc, &level, i == 0, u.colon, &u.path) {
+                    level = l;
+                }
+                units.push(u);
+            }
+            let base = Msg { units, end: B::from(end) };
+            t.steps.push(Step::Send(SendStep {
+                ctl: 0,
+                fmt: FmtCfg::Vec,
+                msg: base.clone(),
+                corrupt: vec![],
+            }));
+            // one catalogued fault at every unit position
+            for i in 0..k {
+                let last = i + 1 == k;
+                if matches!(base.units[i].params.last(), Some(Elem::BlkIndef { .. })) {
+                    continue;
+                }
+                for which in 0..2 {
+                    let mut m = base.clone();
+                    let mut uu = m.units[i].clone();
+                    let ok = if which == 0 {
+                        let kind = HEADER_FAULTS[(run as usize * 7 + i * 3 + t.steps.len()) % HEADER_FAULTS.len()];
+                        apply_header_fault(&mut rng, &mut uu, kind)
+                    } else {
+                        let kind = PARAM_FAULTS[(run as usize * 5 + i * 11 + t.steps.len()) % PARAM_FAULTS.len()];
+                        let ok = apply_param_fault(&mut rng, &mut uu, kind, last, &mut uniq);
+                        if ok {
+                            // the handler pulls as many parameters as there are now (some faults
+                            // add an element), or sometimes fewer (left-over check must catch it)
+                            let n = uu.params.len();
+                            let m_pulls = if rng.chance(1, 4) { rng.usize_below(n + 1) } else { n };
+                            uu.plan.pulls = (0..m_pulls)
+                                .map(|_| Pull {
+                                    req: rng.chance(2, 3),
+                                    ty: PullTy::Tok,
+                                })
+                                .collect();
+                            if last {
+                                m.end = B::new();
+                            }
+                        }
+                        ok
+                    };
+                    if ok {
+                        m.units[i] = uu;
+                        t.steps.push(Step::Send(SendStep {
+                            ctl: 0,
+                            fmt: FmtCfg::Vec,
+                            msg: m,
+                            corrupt: vec![],
+                        }));
+                    }
+                }
+            }
+        }
+        t
+    }
+
+    fn check(&self, trace: &Trace, stats: &mut Stats) -> Vec<Finding> {
+        struct H;
+        impl StepHandler for H {
+            fn on_send(&mut self, world: &mut World, before: &ModelState, i: usize, s: &SendStep, o: &SendObs, stats: &mut Stats, out: &mut Vec<Finding>) {
+                let pred = predict(&world.root, before, s, Reading::Condition);
+                if !pred.structural {
+                    return;
+                }
+                let k = s.msg.units.len();
+                let mut fault_kind: Option<String> = None;
+                for (ui, u) in s.msg.units.iter().enumerate() {
+                    let posc = if ui == 0 { 0 } else if ui + 1 == k { 2 } else { 1 };
+                    if let Some((kind, _)) = &u.hfault {
+                        stats.fault("F3_syntax_fault");
+                        stats.probe(&format!("header_fault_{}", kind));
+                        stats.state_str(&format!("hf|{}|{}", kind, posc));
+                        fault_kind = Some(kind.clone());
+                    }
+                    if let Some(pf) = &u.pfault {
+                        stats.fault("F3_syntax_fault");
+                        stats.probe(&format!("param_fault_{}", pf.kind));
+                        stats.state_str(&format!("pf|{}|{}|{}|{}", pf.kind, posc, pf.p.min(3), u.plan.pulls.len().min(pf.p + 1)));
+                        fault_kind = Some(pf.kind.clone());
+                    }
+                    if u.hfault.is_some() || u.pfault.is_some() {
+                        continue;
+                    }
+                    let n = u.params.len();
+                    for (j, e) in u.params.iter().enumerate() {
+                        let pc = if j == 0 { 0 } else if j + 1 == n { 2 } else { 1 };
+                        let wsc = (u.psep.get(j.saturating_sub(1)).map(|p| p.len() > 1).unwrap_or(false) as u8) | ((!u.tail.is_empty()) as u8) << 1;
+                        stats.state(&[b'e', elem_kind(e), pc, wsc, posc]);
+                        match e {
+                            Elem::Chr(s) if s.len() == 12 => stats.probe("chardata_12_chars"),
+                            Elem::DecSuf { suf, .. } if suf.len() == 12 => stats.probe("suffix_12_chars"),
+                            Elem::Str { q, inner } => {
+                                if inner.0.ends_with(&[*q as u8, *q as u8]) {
+                                    stats.probe("doubled_quote_at_end_of_string");
+                                }
+                                if inner.0.iter().any(|c| matches!(*c, b';' | b',' | b':')) {
+                                    stats.probe("separator_inside_string");
+                                }
+                            }
+                            Elem::Blk { payload, .. } => {
+                                match payload.len() {
+                                    0 => stats.probe("block_len_0"),
+                                    9 => stats.probe("block_len_9"),
+                                    10 => stats.probe("block_len_10"),
+                                    99 => stats.probe("block_len_99"),
+                                    100 => stats.probe("block_len_100"),
+                                    _ => {}
+                                }
+                                if payload.0.iter().any(|c| matches!(*c, b';' | b',' | b'\n')) {
+                                    stats.probe("separator_inside_block");
+                                }
+                            }
+                            Elem::BlkIndef { .. } => stats.probe("indefinite_block"),
+                            Elem::NonDec { digits, radix } => {
+                                let bits = match radix.to_ascii_uppercase() {
+                                    'H' => digits.len() * 4,
+                                    'Q' => digits.len() * 3,
+                                    _ => digits.len(),
+                                };
+                                if bits >= 63 {
+                                    stats.probe("nondecimal_64_bits");
+                                }
+                            }
+                            Elem::Expr(inner) => {
+                                if inner.0.iter().any(|c| matches!(*c, b',' | b':')) {
+                                    stats.probe("separator_inside_expression");
+                                }
+                            }
+                            _ => {}
+                        }
+                    }
+                }
+                let msgd = describe_msg(s);
+                match &fault_kind {
+                    None => {
+                        // element integrity
+                        if let Some(df) = cmp_pulls(&pred, o, &s.msg) {
+                            out.push(Finding::new("C04.element_integrity", df.sig, i, format!("message {}: {}", msgd, df.detail)));
+                            return;
+                        }
+                        if let Some(df) = cmp_result(&pred, o) {
+                            out.push(Finding::new("C04.well_formed_accepted", df.sig, i, format!("message {}: {}", msgd, df.detail)));
+                        }
+                    }
+                    Some(kind) => {
+                        // rejected with a command error; nothing after the faulty unit runs;
+                        // elements before the fault were delivered intact
+                        match &o.result {
+                            Ok(()) => {
+                                out.push(Finding::new(
+                                    "C04.fault_rejected",
+                                    format!("accepted_{}", kind),
+                                    i,
+                                    format!("message {} carries the syntax fault '{}' but was executed successfully (handlers {})", msgd, kind, fmt_calls(&o.calls)),
+                                ));
+                                return;
+                            }
+                            Err(e) if !is_command_error(e.code) => {
+                                out.push(Finding::new(
+                                    "C04.fault_rejected",
+                                    format!("not_a_command_error_{}", kind),
+                                    i,
+                                    format!("message {} carries the syntax fault '{}' and failed with {:?}, which is not a command error", msgd, kind, e),
+                                ));
+                                return;
+                            }
+                            Err(_) => {}
+                        }
+                        if let Some(df) = cmp_pulls(&pred, o, &s.msg) {
+                            out.push(Finding::new("C04.element_integrity", df.sig, i, format!("message {} (fault '{}'): {}", msgd, kind, df.detail)));
+                            return;
+                        }
+                        if let Some(df) = cmp_dispatch(&pred, o) {
+                            if df.sig == "handler_ran_after_failing_unit" {
+                                out.push(Finding::new(
+                                    "C04.fault_rejected",
+                                    format!("later_unit_ran_{}", kind),
+                                    i,
+                                    format!("message {} (fault '{}'): {}", msgd, kind, df.detail),
+                                ));
+                            }
+                        }
+                    }
+                }
+            }
+        }
+        let f = drive(trace, stats, &mut H);
+        // "every fault kind" probes are evaluated over the merged counters by extra_probes()
+        if trace.run < 3 && stats.samples.is_empty() {
+            let msgs: Vec<String> = trace
+                .steps
+                .iter()
+                .take(5)
+                .filter_map(|s| match s {
+                    Step::Send(x) => Some(describe_msg(x)),
+                    _ => None,
+                })
+                .collect();
+            stats.samples.push(serde_json::to_string(&msgs).unwrap());
+        }
+        f
+    }
 }
